@@ -425,3 +425,62 @@ fn c16_solve_leaves_factors_untouched_n2() {
         assert!(ipb[0] == ip[0] && ipb[1] == ip[1]);
     }
 }
+
+/// Complex n = 2 with a FIXED right-hand side (1+2i, 3-i) and symbolic Gaussian-integer matrix
+/// entries in [-1,1]: wrong factors give a wrong solution for this b, so the residual still
+/// decides the elimination branches (real / imaginary-only / general multiplier) — at a fraction
+/// of the cost of the fully symbolic harness (1685 s).
+fn complex_residual_fixed_rhs(a_r: [f64; 4], a_i: [f64; 4]) {
+    let b_r = [1.0, 3.0];
+    let b_i = [2.0, -1.0];
+    let mut ar = Matrix::from_vec(2, 2, a_r.to_vec());
+    let mut ai = Matrix::from_vec(2, 2, a_i.to_vec());
+    let mut ip = [0usize; 2];
+    let r = lu_decomp_complex(&mut ar, &mut ai, &mut ip);
+    let dr = (a_r[0] * a_r[3] - a_i[0] * a_i[3]) - (a_r[1] * a_r[2] - a_i[1] * a_i[2]);
+    let di = (a_r[0] * a_i[3] + a_i[0] * a_r[3]) - (a_r[1] * a_i[2] + a_i[1] * a_r[2]);
+    if dr == 0.0 && di == 0.0 {
+        assert!(r.is_err());
+    } else {
+        assert!(r.is_ok());
+        let mut xr = b_r;
+        let mut xi = b_i;
+        lin_solve_complex(&ar, &ai, &mut xr, &mut xi, &ip);
+        let i: usize = kani::any();
+        kani::assume(i < 2);
+        let rr = a_r[2 * i] * xr[0] - a_i[2 * i] * xi[0] + a_r[2 * i + 1] * xr[1] - a_i[2 * i + 1] * xi[1] - b_r[i];
+        let ri = a_r[2 * i] * xi[0] + a_i[2 * i] * xr[0] + a_r[2 * i + 1] * xi[1] + a_i[2 * i + 1] * xr[1] - b_i[i];
+        let sc = (a_r[2 * i].abs() + a_i[2 * i].abs()) * (xr[0].abs() + xi[0].abs())
+            + (a_r[2 * i + 1].abs() + a_i[2 * i + 1].abs()) * (xr[1].abs() + xi[1].abs());
+        assert!(rr.abs() + ri.abs() <= 128.0 * f64::EPSILON * sc);
+    }
+    kani::cover!(r.is_ok(), "nonsingular case reachable");
+}
+
+#[kani::proof]
+#[kani::unwind(5)]
+fn c16_complex_residual_fixed_rhs_general() {
+    let a_r = [small(1), small(1), small(1), small(1)];
+    let a_i = [small(1), small(1), small(1), small(1)];
+    complex_residual_fixed_rhs(a_r, a_i);
+}
+
+/// Pivot-row entry right of the pivot purely imaginary (the `mr == 0.0` elimination branch).
+#[kani::proof]
+#[kani::unwind(5)]
+fn c16_complex_residual_fixed_rhs_imag_multiplier() {
+    let a_r = [small(2), 0.0, small(2), 0.0];
+    let a_i = [small(2), small(2), small(2), small(2)];
+    kani::assume(a_i[1] != 0.0 && a_i[3] != 0.0);
+    complex_residual_fixed_rhs(a_r, a_i);
+}
+
+/// Purely real pivot-row entry (the `mi == 0.0` branch).
+#[kani::proof]
+#[kani::unwind(5)]
+fn c16_complex_residual_fixed_rhs_real_multiplier() {
+    let a_r = [small(2), small(2), small(2), small(2)];
+    let a_i = [small(2), 0.0, small(2), 0.0];
+    kani::assume(a_r[1] != 0.0 && a_r[3] != 0.0);
+    complex_residual_fixed_rhs(a_r, a_i);
+}
